@@ -10,7 +10,8 @@
 import Honeycomb.Gen.LinkCores
 import Honeycomb.Model.Ops
 
-namespace HC
+namespace HC.GenTie
+open HC
 variable {X : Type}
 
 /-- operand of a generated instruction -/
@@ -68,4 +69,4 @@ theorem C01_gen_threeUnlinkCore (l : Nat) : interpCore (X := X) l 0 0 Gen.threeU
 /-- the interpreter is not vacuous: a list it does not understand is a panic, not a silent success -/
 example (l r : Nat) : interpCore (X := X) l r 0 [(7, [])] = Prog.panic := rfl
 
-end HC
+end HC.GenTie
